@@ -141,6 +141,7 @@ class SubCheck:
         shrink: bool = True,
         exhaustive_tiers: Iterable[str] = (),
         stateful=None,
+        cov: Optional[Dict[str, int]] = None,
     ):
         self.name = name
         self.oracle = oracle
@@ -150,6 +151,10 @@ class SubCheck:
         self.budget_s = budget_s or {"quick": 60.0, "thorough": 900.0}
         self.shrink = shrink
         self.exhaustive_tiers = set(exhaustive_tiers)
+        # coverage-guided tier: libFuzzer executions per tier (total, split over ``COV_PROCS`` processes); the same
+        # strategy and oracle, driven by atheris through Hypothesis' ``fuzz_one_input`` with odc.* instrumented
+        self.cov = cov or {}
+        self.cov_budget_s = {"quick": 30.0, "thorough": 420.0}
 
 
 def _in_repo_frames(tb) -> Optional[str]:
@@ -341,6 +346,107 @@ class Check:
                 ) from e
         if last_fail:
             self._record_failure(sc, last_fail["case"], last_fail["msg"])
+
+    # ------------------------------------------------------------ coverage-guided driver (atheris/libFuzzer)
+    def run_cov(self, sc: SubCheck, runs: int, budget_s: float, out_path: Path, scratch: Path, corpus_seeded: bool) -> None:
+        """Drive ``sc.strategy`` with libFuzzer mutations of Hypothesis' byte stream.  Never returns: the process
+        ends with os._exit once ``runs`` executions were made, the budget ran out, or a violation was found (and
+        shrunk by Hypothesis from its example database).  Results are written to ``out_path`` as a shard result
+        whose tracker is named ``<sub>@cov``.  The caller must have imported odc.* under
+        ``atheris.instrument_imports`` already."""
+        import atheris
+        import hypothesis
+        from hypothesis import HealthCheck, Phase, given, settings
+        from hypothesis.database import DirectoryBasedExampleDatabase
+
+        name = sc.name + "@cov"
+        T = self.trackers.setdefault(name, Tracker(name))
+        T._known_active = set(self.known_active)
+        t0 = time.time()
+        deadline = t0 + budget_s
+        last_fail: Dict[str, Any] = {}
+        shrinking = [False]
+        shrink_deadline = [None]
+        db = DirectoryBasedExampleDatabase(str(scratch / "hdb"))
+
+        def body(case):
+            if shrinking[0] and shrink_deadline[0] is not None and time.time() > shrink_deadline[0]:
+                raise _Budget()
+            try:
+                self.run_case(sc, T, case)
+            except Violation as v:
+                last_fail["case"] = json.loads(json.dumps(case))
+                last_fail["msg"] = str(v)
+                raise
+
+        base = dict(database=db, deadline=None, derandomize=False, report_multiple_bugs=False, print_blob=False,
+                    suppress_health_check=list(HealthCheck))
+        test = settings(max_examples=1, phases=[Phase.reuse, Phase.shrink] if sc.shrink else [Phase.reuse], **base)(
+            given(sc.strategy)(body))
+        fuzz_one = test.hypothesis.fuzz_one_input
+        calls = [0]
+        last_dump = [t0]
+
+        def dump() -> None:
+            T.wall_s = time.time() - t0
+            out = {"shard": self.shard, "trackers": [T.to_json()], "failures": self.failures,
+                   "harness_errors": self.harness_errors, "cov": {"sub": sc.name, "libfuzzer_calls": calls[0]}}
+            tmp = Path(str(out_path) + ".tmp")
+            tmp.write_text(json.dumps(out))
+            os.replace(tmp, out_path)
+
+        def finish() -> None:
+            dump()
+            sys.stdout.flush()
+            sys.stderr.flush()
+            os._exit(0)
+
+        def one(data: bytes) -> None:
+            calls[0] += 1
+            try:
+                fuzz_one(data)
+            except Violation:
+                # replay the failure Hypothesis saved in its database and shrink it
+                shrinking[0] = True
+                shrink_deadline[0] = time.time() + 120.0
+                try:
+                    test()
+                except BaseException:  # noqa: BLE001 - the shrunk case is in last_fail
+                    pass
+                self.failures.append({"subcheck": sc.name, "case": last_fail["case"],
+                                      "message": ("[coverage-guided] " + last_fail["msg"])[:2000]})
+                finish()
+            except HarnessError as e:
+                self.harness_errors.append(str(e))
+                finish()
+            now = time.time()
+            if calls[0] >= runs:
+                finish()
+            if now > deadline:
+                T.budget_exhausted = True
+                finish()
+            if now - last_dump[0] > 5.0:
+                last_dump[0] = now
+                dump()
+
+        corpus = scratch / "corpus"
+        corpus.mkdir(parents=True, exist_ok=True)
+        sub_seed = (self.seed * 1000 + self.shard) * 1000 + (key_hash(sc.name) % 997)
+        if corpus_seeded:
+            # deterministic pseudo-random byte strings: under fuzz_one_input these decode to ordinary random
+            # examples, so libFuzzer starts from long valid inputs instead of growing them from nothing
+            import random as _random
+
+            rng = _random.Random(sub_seed)
+            for i in range(48):
+                (corpus / f"seed{i:02d}").write_bytes(rng.randbytes(rng.choice([32, 128, 512, 2048])))
+        dump()
+        argv = [sys.argv[0], f"-seed={sub_seed % (2**31 - 1) or 1}", "-len_control=0", "-max_len=8192",
+                "-rss_limit_mb=6000", "-timeout=1200", "-verbosity=0", "-print_final_stats=0",
+                f"-artifact_prefix={scratch}/", str(corpus)]
+        atheris.Setup(argv, one)
+        atheris.Fuzz()
+        finish()
 
     def run_replay_file(self, path: Path) -> Optional[str]:
         """Re-run a saved case. Returns violation message or None."""
